@@ -768,11 +768,14 @@ def _list_extend(ex, st, self_v, args, kwargs, node):
     if o.items is not None and items is not None:
         o.items.extend(items)
         return R1(ex, st, NONE)
-    if o.items is not None and not o.items:
-        seq = ex.sym_seq(st, args[0])
-        if seq is not None:
+    seq = ex.sym_seq(st, args[0])
+    if o.items is not None and seq is not None and o.prefix is None:
+        if not o.items:
             o.items, o.sym = None, seq
-            return R1(ex, st, NONE)
+        else:
+            # concrete prefix followed by a symbolic tail (only join / iteration-free uses are supported afterwards)
+            o.prefix, o.items, o.sym = list(o.items), None, seq
+        return R1(ex, st, NONE)
     raise Unsupported("list.extend with symbolic lists")
 
 
